@@ -7,6 +7,7 @@ package sim
 
 import (
 	"encoding/json"
+	"errors"
 	"fmt"
 	"math/rand"
 	"net/url"
@@ -254,6 +255,8 @@ func New(cfg world.Cfg, r *rand.Rand, so SeedOpt) (*Sim, error) {
 	return s, nil
 }
 
+var errBackend = errors.New("backend unavailable")
+
 const b32 = "ABCDEFGHIJKLMNOPQRSTUVWXYZ234567"
 
 func newTOTPSecret(r *rand.Rand) string {
@@ -328,6 +331,11 @@ func (s *Sim) Exec(a *Action) *Step {
 		}
 		a.Secret = val
 		st.Rec = &world.Rec{Kind: "local", Browser: a.B, Method: "LOCAL", Target: "steal", Now: s.W.Now(), Before: s.W.Store.Snapshot()}
+		st.Rec.After = st.Rec.Before
+	case "faultnext":
+		// the named backend operation fails once in the next request (e.g. the SMS gateway is down)
+		s.W.FaultOps = map[string]error{a.opt("op"): errBackend}
+		st.Rec = &world.Rec{Kind: "local", Browser: a.B, Method: "LOCAL", Target: "faultnext " + a.opt("op"), Now: s.W.Now(), Before: s.W.Store.Snapshot()}
 		st.Rec.After = st.Rec.Before
 	case "dropsid":
 		delete(bs.B.Jar, world.SidCookie)
@@ -1076,7 +1084,12 @@ func (s *Sim) fillCode(a *Action, bs *BState, f map[string]string, kind string) 
 		}
 	case "sessionsecret": // whatever sms_secret the session holds (an attacker cannot read it; used
 		// only to probe "empty/absent secret" handling when it is empty)
-		a.Secret = sess["sms_secret"]
+		// (an attacker cannot read the session: when it does hold a code this class degrades to a guess)
+		if sess["sms_secret"] != "" {
+			a.Resolved, a.Secret = "wrong", "000009"
+		} else {
+			a.Secret = ""
+		}
 	case "empty":
 		a.Secret = ""
 	case "recovery":
